@@ -141,6 +141,13 @@ func genRepoSnapshots(op OpSpec) []*asset.Snapshot {
 			return 50 + 50*rng.Float64()
 		}
 		out[i] = &asset.Snapshot{Date: base2000.AddDate(0, 0, op.From+i), Open: pick(), High: pick(), Low: pick(), Close: pick(), Volume: float64(rng.Intn(1e6))}
+		if rng.Intn(8) == 0 {
+			// a wide row: every field near the longest float64 renderings (24 characters each)
+			wide := func() float64 {
+				return []float64{math.MaxFloat64, -math.MaxFloat64, -2.2250738585072014e-308, -1.2345678901234567e-300, 1.7976931348623155e+308, -4.9406564584124654e-324}[rng.Intn(6)]
+			}
+			out[i].Open, out[i].High, out[i].Low, out[i].Close, out[i].Volume = wide(), wide(), wide(), wide(), wide()
+		}
 	}
 	return out
 }
